@@ -100,8 +100,12 @@ def match_date_range(date, date_range):
     Match a specific date, a four-tuple with no special values, with a DateRange
     object which as a start date and end date.
     """
-    return (date[:3] >= date_range.startDate[:3]) \
-        and (date[:3] <= date_range.endDate[:3])
+    start_date = tuple(date_range.startDate[:3])
+    end_date = tuple(date_range.endDate[:3])
+
+    # an unspecified (all wildcard) start or end date leaves that side open
+    return ((start_date == (255, 255, 255)) or (tuple(date[:3]) >= start_date)) \
+        and ((end_date == (255, 255, 255)) or (tuple(date[:3]) <= end_date))
 
 #
 #   match_weeknday
